@@ -64,8 +64,12 @@ Upper == <<"A","B","C","D","E","F","G","H","I","J","K","L","M","N","O","P","Q","
 IsLower(c) == \E i \in 1..26 : Lower[i] = c
 IsUpper(c) == \E i \in 1..26 : Upper[i] = c
 IsAlpha(c) == IsLower(c) \/ IsUpper(c)
+LowerCh(c) == IF IsUpper(c) THEN Lower[CHOOSE i \in 1..26 : Upper[i] = c] ELSE c
 IsAlnum(c) == IsAlpha(c) \/ IsDigit(c)
 IsBlank(c) == c = " " \/ c = "\t" \/ c = "\n" \/ c = "\r"
+
+RECURSIVE ToLowerStr(_)
+ToLowerStr(s) == IF Len(s) = 0 THEN "" ELSE LowerCh(Ch(s, 1)) \o ToLowerStr(DropPrefix(s, 1))
 
 RECURSIVE TrimLeft(_)
 TrimLeft(s) == IF Len(s) > 0 /\ IsBlank(Ch(s, 1)) THEN TrimLeft(DropPrefix(s, 1)) ELSE s
